@@ -402,6 +402,7 @@ def dec_tight(rd, w, h, fmt, conn, png, unjpeg, info):
         ln = compact_len(rd)
         data = rd.take(ln)
         rgbimg = unjpeg(data, w, h)
+        info["jpeg"] = data
         return rgb8_to_client(rgbimg, fmt), rd.b[start:rd.o], "lossy"
     if t == 10 and png:
         info["kind"] = "png"
@@ -598,6 +599,8 @@ def parse_server_stream(buf, fmt, conn, unlzo, unjpeg, stats):
                 r["lossy"] = flag == "lossy"
                 if flag in ("lossy", "still"):
                     r["still"] = px
+                if "jpeg" in info:
+                    r["jpeg"] = info["jpeg"]
                 if "error" in info:
                     r["error"], r["finding"] = info["error"], info.get("finding")
                 k = info.get("kind", "?")
@@ -611,3 +614,39 @@ def parse_server_stream(buf, fmt, conn, unlzo, unjpeg, stats):
             rects.append(r)
         msgs.append(("fbu", rects, nrects))
     return msgs
+
+
+def jpeg_tables(data):
+    """-> dict(qdc = {table id: DC quantisation step}, comps = [(id, h, v, tq)], w, h) from the JPEG's own
+    DQT / SOF0 segments (baseline JPEG as libjpeg-turbo writes it); raises Malformed on anything else"""
+    if data[:2] != b"\xff\xd8":
+        raise Malformed("jpeg: no SOI")
+    o, qdc, comps, dims = 2, {}, None, None
+    while o + 4 <= len(data):
+        if data[o] != 0xFF:
+            raise Malformed("jpeg: marker expected at %d" % o)
+        mk = data[o + 1]
+        ln = struct.unpack(">H", data[o + 2:o + 4])[0]
+        seg = data[o + 4:o + 2 + ln]
+        if mk == 0xDB:
+            q = 0
+            while q < len(seg):
+                pq, tq = seg[q] >> 4, seg[q] & 15
+                if pq == 0:
+                    qdc[tq] = seg[q + 1]
+                    q += 65
+                else:
+                    qdc[tq] = struct.unpack(">H", seg[q + 1:q + 3])[0]
+                    q += 129
+        elif mk in (0xC0, 0xC1):
+            dims = (struct.unpack(">H", seg[3:5])[0], struct.unpack(">H", seg[1:3])[0])
+            n = seg[5]
+            comps = [(seg[6 + 3 * i], seg[7 + 3 * i] >> 4, seg[7 + 3 * i] & 15, seg[8 + 3 * i]) for i in range(n)]
+        elif mk == 0xC2:
+            raise Malformed("jpeg: progressive")
+        elif mk == 0xDA:
+            break
+        o += 2 + ln
+    if comps is None or not qdc:
+        raise Malformed("jpeg: no SOF0/DQT")
+    return {"qdc": qdc, "comps": comps, "w": dims[0], "h": dims[1]}
